@@ -395,7 +395,8 @@ def run(ctx):
                                   {"profile": prof, "opt": int(f[2]), "file": path, "source": text, "modules": mods})
         # every hash table whose order could reach the output must be exercised with >= 2 entries by compiled files
         need = {"many-globals": "global_indices -> build_global_layout", "forward-globals": "child global_indices merged into the parent (finalize_*_function)",
-                "lambda-forward-globals": "finalize_lambda / compile_typed_lambda_*", "nested-interned-strings": "Heap::merge intern_table",
+                "lambda-forward-globals": "finalize_lambda / compile_typed_lambda_*", "block-lambda-new-globals": "compile_typed_lambda_with_stmts: globals first seen in a block-bodied lambda, used by the enclosing code afterwards",
+                "nested-block-lambda": "the same, lambda inside a lambda / inside a function", "nested-interned-strings": "Heap::merge intern_table",
                 "needs-module": "loader exports / known_globals / symbol_origins", "needs-selected": "loader exports (selected symbols)",
                 "needs-alias": "loader exports (alias)", "user-module": "compile_module exports", "mutual-recursion": "inliner call graph (functions, calls)",
                 "closure": "sema captures / scopes"}
